@@ -50,6 +50,49 @@ Theorem C16_range_response : forall (proto11 : bool) (hv : option str) (content 
 Proof. exact serve_range_sound. Qed.
 Print Assumptions C16_range_response.
 
+(* not over-restrictive: a request whose decoded path is a sequence of plain names that denotes
+   a regular file under a normalised document root is answered with exactly that file *)
+Theorem C16_benign_served :
+  forall (fexists isfile isdir : str -> bool) (unq : str -> str) d defaults dirlisting reqpath ps,
+  starts_slash d = true -> ends_slash d = false -> normpath d = d ->
+  Forall plain ps -> ps <> [] ->
+  unq (strip_sl reqpath) = intercalate ps ->
+  fexists (d ++ SL :: intercalate ps) = true ->
+  isfile (d ++ SL :: intercalate ps) = true ->
+  isdir (d ++ SL :: intercalate ps) = false ->
+  static_request fexists isfile isdir unq None d defaults dirlisting reqpath
+  = File (d ++ SL :: intercalate ps).
+Proof. exact static_benign. Qed.
+Print Assumptions C16_benign_served.
+
+(* exactness of get_ranges on the three well-formed single specs, for all digit strings and lengths:
+   "bytes=a-b" -> [a, min(b, len-1)] ; "bytes=a-" -> [a, len) ; "bytes=-n" -> the last n bytes;
+   a first position beyond the file -> [] (416) *)
+Theorem C16_range_closed : forall ds de a b cl,
+  all_digits ds = true -> all_digits de = true ->
+  int_of ds = Some a -> int_of de = Some b -> (a <= b)%Z -> (a < cl)%Z ->
+  get_ranges (Some (BYTES ++ EQ :: ds ++ DASH :: de)) cl = RList [(a, Z.min b (cl - 1) + 1)%Z].
+Proof. exact range_closed_exact. Qed.
+Print Assumptions C16_range_closed.
+
+Theorem C16_range_open : forall ds a cl,
+  all_digits ds = true -> int_of ds = Some a -> (a < cl)%Z ->
+  get_ranges (Some (BYTES ++ EQ :: ds ++ [DASH])) cl = RList [(a, cl)].
+Proof. exact range_open_exact. Qed.
+Print Assumptions C16_range_open.
+
+Theorem C16_range_suffix : forall de n cl,
+  all_digits de = true -> int_of de = Some n -> (0 < n)%Z -> (0 < cl)%Z ->
+  get_ranges (Some (BYTES ++ EQ :: DASH :: de)) cl = RList [(Z.max (cl - n) 0, cl)%Z].
+Proof. exact range_suffix_exact. Qed.
+Print Assumptions C16_range_suffix.
+
+Theorem C16_range_beyond : forall ds de a cl,
+  all_digits ds = true -> all_digits de = true -> int_of ds = Some a -> (cl <= a)%Z ->
+  get_ranges (Some (BYTES ++ EQ :: ds ++ DASH :: de)) cl = RList [].
+Proof. exact range_beyond_416. Qed.
+Print Assumptions C16_range_beyond.
+
 (* non-vacuity *)
 Open Scope N_scope.
 Definition ex_root : str := [47; 114].                        (* "/r" *)
@@ -70,4 +113,17 @@ Example C16_ex_suffix :      (* bytes=-20 on 5 bytes -> (0, 5) *)
 Proof. vm_compute. reflexivity. Qed.
 Example C16_ex_malformed :   (* bytes=abc -> header ignored *)
   get_ranges (Some [98; 121; 116; 101; 115; 61; 97; 98; 99]) 5 = RIgnore.
+Proof. vm_compute. reflexivity. Qed.
+Example C16_ex_benign_hyps :   (* the hypotheses of C16_benign_served are satisfiable: root "/r", path "a/b" *)
+  starts_slash ex_root = true /\ ends_slash ex_root = false /\ normpath ex_root = ex_root /\
+  plainb [97] = true /\ plainb [98] = true /\
+  location ex_root (intercalate [[97]; [98]]) = [47; 114; 47; 97; 47; 98].
+Proof. vm_compute. repeat split; reflexivity. Qed.
+Example C16_ex_digits :        (* "12" is a digit string denoting 12; "12-3" on 100 bytes is reversed: header void *)
+  all_digits [49; 50] = true /\ int_of [49; 50] = Some 12%Z /\
+  get_ranges (Some (BYTES ++ EQ :: [49; 50] ++ DASH :: [51])) 100 = RIgnore.
+Proof. vm_compute. repeat split; reflexivity. Qed.
+Example C16_ex_multi :         (* bytes=0-1,8-9 on "0123456789" *)
+  serve_range true (Some [98; 121; 116; 101; 115; 61; 48; 45; 49; 44; 56; 45; 57]) [48; 49; 50; 51; 52; 53; 54; 55; 56; 57]
+  = Multi 10%Z [(0%Z, 2%Z, [48; 49]); (8%Z, 10%Z, [56; 57])].
 Proof. vm_compute. reflexivity. Qed.
